@@ -34,3 +34,108 @@ func lemmaEDNS0(udp int, ext RCode, do bool) (ok bool) {
 	return h.ExtendedRCode(ext&0xF) == ext && h.DNSSECAllowed() == do &&
 		h.Class == Class(udp) && h.Type == TypeOPT && h.Name.Length == 1 && h.Name.Data[0] == '.'
 }
+
+// ---------------------------------------------------------------------------
+// Fixed-layout fields: pack/unpack round trips and skip/unpack agreement (C36, C37)
+
+//@ lemma
+//@ ensures ok
+func lemmaUint16RoundTrip(pre []byte, v uint16) (ok bool) {
+	b := packUint16(pre, v)
+	got, off, err := unpackUint16(b, len(pre))
+	return err == nil && got == v && off == len(b) && len(b) == len(pre)+2
+}
+
+//@ lemma
+//@ ensures ok
+func lemmaUint32RoundTrip(pre []byte, v uint32) (ok bool) {
+	b := packUint32(pre, v)
+	got, off, err := unpackUint32(b, len(pre))
+	return err == nil && got == v && off == len(b) && len(b) == len(pre)+4
+}
+
+//@ lemma
+//@ ensures ok
+func lemmaTypeClassRoundTrip(pre []byte, t Type, c Class) (ok bool) {
+	b := packClass(packType(pre, t), c)
+	gt, off, err := unpackType(b, len(pre))
+	if err != nil {
+		return false
+	}
+	gc, off2, err := unpackClass(b, off)
+	return err == nil && gt == t && gc == c && off2 == len(b)
+}
+
+// lemmaSkipAgrees: on any bytes and any non-negative offset, the skip functions succeed exactly
+// when the unpack functions do and advance to the same position.
+//
+//@ lemma
+//@ requires 0 <= off && off <= 1<<40
+//@ ensures ok
+func lemmaSkipAgrees(msg []byte, off int) (ok bool) {
+	_, o1, e1 := unpackUint16(msg, off)
+	s1, f1 := skipUint16(msg, off)
+	_, o2, e2 := unpackUint32(msg, off)
+	s2, f2 := skipUint32(msg, off)
+	_, o3, e3 := unpackType(msg, off)
+	s3, f3 := skipType(msg, off)
+	_, o4, e4 := unpackClass(msg, off)
+	s4, f4 := skipClass(msg, off)
+	return o1 == s1 && (e1 == nil) == (f1 == nil) && o2 == s2 && (e2 == nil) == (f2 == nil) &&
+		o3 == s3 && (e3 == nil) == (f3 == nil) && o4 == s4 && (e4 == nil) == (f4 == nil)
+}
+
+// lemmaHeaderBits: the header flag word round-trips for every combination of flags, every
+// 4-bit opcode and every 4-bit response code.
+//
+//@ lemma
+//@ requires m.OpCode < 16 && m.RCode < 16
+//@ ensures ok
+func lemmaHeaderBits(m Header) (ok bool) {
+	id, bits := m.pack()
+	h := header{id: id, bits: bits}
+	return h.header() == m
+}
+
+// lemmaHeaderRoundTrip: the twelve header bytes.
+//
+//@ lemma
+//@ ensures ok
+func lemmaHeaderRoundTrip(pre []byte, h header) (ok bool) {
+	b := h.pack(pre)
+	var g header
+	off, err := g.unpack(b, len(pre))
+	return err == nil && g == h && off == len(b) && len(b) == len(pre)+headerLen
+}
+
+// ---------------------------------------------------------------------------
+// Parsing safety (C37)
+
+//@ func unpackText(msg, off) (s, newOff, err)
+//@   requires 0 <= off && off <= 1<<40
+//@   ensures  err == nil ==> newOff == off + 1 + len(s) && newOff <= len(msg) && len(s) <= 255
+//@   ensures  err != nil ==> newOff == off
+//@
+//@ func unpackBytes(msg, off, field) (newOff, err)
+//@   requires 0 <= off && off <= 1<<40
+//@   ensures  err == nil ==> newOff == off + len(field) && newOff <= len(msg)
+//@   ensures  err != nil ==> newOff == off
+//@   modifies elems(field)
+//@
+//@ func skipName(msg, off) (newOff, err)
+//@   requires 0 <= off && off <= 1<<40
+//@   ensures  err != nil ==> newOff == off
+//@   ensures  err == nil ==> newOff > off
+//@   loop 1 invariant off <= newOff && (newOff <= len(msg) + 1 || newOff == off)
+//@
+//@ func (*Name).unpack(n, msg, off) (newOff, err)
+//@   requires n != nil && 0 <= off && off <= 1<<40
+//@   ensures  err != nil ==> newOff == off
+//@   ensures  err == nil ==> 1 <= n.Length && n.Length <= 254 && newOff > off && newOff <= len(msg)
+//@   loop 1 invariant 0 <= currOff && currOff <= 1<<41 && 0 <= ptr && ptr <= 10
+//@   loop 1 invariant 0 <= len(name) && len(name) <= 254 && cap(name) == 255 && samebase(name, atloop(name)) && suboff(name, atloop(name)) == 0
+//@   loop 1 invariant ptr == 0 ==> (newOff == off && off <= currOff)
+//@   loop 1 invariant ptr > 0 ==> (off < newOff && newOff <= len(msg))
+//@   loop 1 modifies elems(name)
+//@   loop 2 invariant -1 <= rangeindex && rangeindex < endOff - currOff
+//@   modifies *n
